@@ -685,3 +685,54 @@ class _:
                 body = z3.Exists([j1], body)
             out.append((f"improves-iff[{cls}]", z3.Implies(z3.And(o.self.isinstance(cls), s.rows.len != 1), body)))
         return out
+
+
+# --- OverhangResolver.add_overhang_premise (C01): a contig shared by several pieces gets a what-if per holder, and only for the
+# end of the holder it really sits at; a holder that has it in the middle gets none (it cannot be discarded there) --------------
+
+from pyvc.values import TDict, TList, TTuple  # noqa: E402
+
+OP = TRef("OverhangPremise")
+KEY3 = TTuple([STR, INT, INT])
+RESOLVER = TRef("OverhangResolver")
+
+
+def _premise_init(cls, ty):
+    @contract(f"{U}.{cls}.__init__", kind="init", properties=("C01",))
+    class _:
+        params = {"self": ty, "scaffold": OR, "fragment": FRAG}
+        modifies = staticmethod(lambda o: [("field", "OverhangPremise", "scaffold", o.self), ("field", "OverhangPremise", "fragment", o.self)])
+        ensures = staticmethod(lambda o, n, res: z3.And(n.self.scaffold.z == o.scaffold.z, n.self.fragment.z == o.fragment.z))
+
+
+_premise_init("OverhangPremise", OP)
+
+
+@contract(f"{U}.OverhangResolver.add_overhang_premise", properties=("C01", "C18"))
+class _:
+    params = {"self": RESOLVER, "fragment": FRAG, "scffld": OR}
+    result = NONE
+    requires = staticmethod(lambda o: [("nonempty", o.scffld.rows.len > 0)])
+    modifies = staticmethod(lambda o: [("dict-maps", KEY3, TList(OP)), ("fresh-objs", "OverhangPremise", ["scaffold", "fragment"]), ("fresh-lists", OP),
+                                       ("map", "LA.Int"), ("map", "LHI.Int"), ("alloc",)])
+
+    @staticmethod
+    def ensures(o, n, res):
+        from pyvc.spec import CLASSES, ObjView, class_map
+
+        sc, f = o.scffld, o.fragment
+        first, last = sc.rows[0].z == f.z, sc.rows[-1].z == f.z
+        key = KEY3.sort().mk(f.name, f.start, f.end)
+        d0, d1 = o.self.premises_by_fragment_key, n.self.premises_by_fragment_key
+        other = z3.Const("key!prem", KEY3.sort())
+        lst1 = d1.get(key)
+        old_len = z3.If(d0.has(key), ObjView(o.state, d0.raw(key), "OverhangResolver").z * 0 + o.self.premises_by_fragment_key.get(key).len, 0)
+        prem = lst1[lst1.len - 1]
+        cm = class_map(n.state)
+        return [
+            ("middle-row-gets-no-premise", z3.Implies(z3.And(z3.Not(first), z3.Not(last)), z3.ForAll([other], z3.And(d1.has(other) == d0.has(other), d1.raw(other) == d0.raw(other))))),
+            ("one-premise-for-the-end-it-sits-at", z3.Implies(z3.Or(first, last), z3.And(
+                d1.has(key), lst1.len == old_len + 1, prem.scaffold.z == sc.z, prem.fragment.z == f.z,
+                cm[prem.z] == z3.If(first, CLASSES["StartOverhangPremise"]["id"], CLASSES["EndOverhangPremise"]["id"])))),
+            ("other-keys-kept", z3.ForAll([other], z3.Implies(other != key, z3.And(d1.has(other) == d0.has(other), d1.raw(other) == d0.raw(other))))),
+        ]
